@@ -52,7 +52,7 @@ CHECKS = {
             "C16_table_disciplined (the access table regenerated from package device — every *Device field access of the three goroutines with the mutexes held — has a common mutex for every conflicting pair), C16_no_race (generic lockset theorem: no schedule enables two conflicting accesses), C16_writes_locked, C16_table_complete, C16_no_shared_package_state, C16_independent, C16_source_facts; the decision on the implementation: every ProcessEvents returns promptly, no goroutine is left, the race detector is silent, each device's output equals its output when run alone.",
             "Partial by nature: schedules are sampled under the race detector; a peer that never answers TCP is not modelled."),
     "C17": ("Lean 4 proof over the frame model (painting order, byte arithmetic, exact channel colours) + source facts + frames of the real LED loop captured by a fake OpenRGB server",
-            "C17_frame_total (any layout incl. none: one colour per LED, nothing outside the frame written), C17_layout (an action paints at most the LED of its own key), C17_active (LEDs of keys at a held pitch show the active colour whatever was painted before), C17_midi_in_note_off / note_on_zero / note_on / cleared, C17_panic_clears, C17_channel_colours, C17_source_facts, witnesses C17_unchecked_crashes / C17_unchecked_hits_led0; independent per-LED expectation from State(), the device's own MIDI output and the MIDI-input script evaluated on every captured frame.",
+            "C17_refinement (every LED of every frame equals the declarative per-LED specification LedSpec.highlight: active > external colour of the current channel > colour of the lowest other MIDI-input channel > base colour; proved via last-write-wins over the write list), C17_pitch_class (base colour of a mapped key = class colour of note + semitone + 12*octave), C17_unavailable (out of MIDI range and bound to no action: unavailable colour), C17_external, C17_other_channel, C17_frame_total (any layout incl. none: one colour per LED, nothing outside the frame written), C17_layout (an action paints at most the LED of its own key), C17_active (LEDs of keys at a held pitch show the active colour whatever was painted before), C17_midi_in_note_off / note_on_zero / note_on / cleared, C17_panic_clears, C17_channel_colours, C17_source_facts, witnesses C17_unchecked_crashes / C17_unchecked_hits_led0; independent per-LED expectation from State(), the device's own MIDI output and the MIDI-input script evaluated on every captured frame.",
             "Trusted/partial: go-colorful HSV round trip (class colours taken from the real shiftColor each run, measured ±1/255); frames sampled after quiescence; |12·octave+semitone| ≤ 127."),
     "C18": ("Lean 4 proof over a file-tree model + differential correspondence + real interrupted runs (RLIMIT_FSIZE, strace fault injection)",
             "For every template and tree: C18_frame (everything that is not a factory template path is untouched), C18_restores, C18_blacklist_created, C18_idempotent, C18_succeeds (every regular tree), crashStates_similar; instantiated with the repository's embedded template (Gen.templateShape, regenerated and compared with the real embed.FS on every run): C18_template_facts, C18_repo, C18_crash_repo (a later run on whatever an interrupted run left restores the factory files and keeps the user files), C18_fresh_repo (absent directory: complete tree).",
@@ -61,7 +61,7 @@ CHECKS = {
             "C19_accounting / C19_silent (notifications ≤ write events on names with the suffix, any schedule), C19_take_offers / C19_no_take_while_offering, C19_stops (guarded hand-off: the goroutine returns after cancellation without a reader, from every state), C19_stuck_unguarded (witness for the repaired defect), C19_source_facts (suffix \".toml\", hand-off selected against ctx.Done(), Op test).",
             "Trusted/partial: the kernel reports in-place modification as IN_MODIFY and fsnotify maps it to Write; timing is sampled (500 ms / 1 s limits); Go channel and select semantics as written in the model."),
     "C20": ("Lean 4 proof over Normalize model + differential correspondence on permuted handler lists",
-            "(theorems for the Normalize model are being added; at present the decision rests on the differential run over permuted handler lists)",
+            "C20_group_spec (the group of a location is exactly the handlers reporting it, in discovery order, and exists iff there is one), C20_keys_nodup (one group per location), C20_member, C20_members_same_phys, C20_partition_count, C20_type_rule (joystick if any member is joystick-like, else keyboard if any is a standard keyboard, else mouse iff a single mouse handler, else not playable), C20_order (any two discovery orders give the same members up to order and the same type, location by location), C20_order_id_partial (the ID is order-independent when the handlers of a location report the same ID), C20_handler_type_set (HandlerType depends only on the set of capability types).",
             "evdev.Open is a parameter (handlers cannot be opened in the sandbox)."),
 }
 
